@@ -44,18 +44,19 @@ Inductive tstep (s : state) : label -> state -> Prop :=
     tstep s Tau (set_linger false (set_inbuf (tl (inbuf s)) s))
 (* sendLoop *)
 | t_s_quit_w o r : spc s = SSel -> tx s = o :: r -> o_quit o = true ->
-    tstep s Tau (set_spc SQuit (set_tx r (if negb (peer_closed s || sock_closed s)
-                                           then set_outbuf (outbuf s ++ [o]) s else s)))
-| t_s_ok o r : spc s = SSel -> tx s = o :: r -> o_quit o = false -> peer_closed s || sock_closed s = false ->
+    tstep s Tau (set_spc SQuit (set_tx r (if write_ok s then set_outbuf (outbuf s ++ [o]) s else s)))
+| t_s_ok o r : spc s = SSel -> tx s = o :: r -> o_quit o = false -> write_ok s = true ->
     tstep s Tau (set_tx r (set_outbuf (outbuf s ++ [o]) s))
-| t_s_fail o r : spc s = SSel -> tx s = o :: r -> o_quit o = false -> peer_closed s || sock_closed s = true ->
-    tstep s Tau (group_err EIO (set_spc SDone (set_tx r s)))
+| t_s_fail o r : spc s = SSel -> tx s = o :: r -> o_quit o = false -> write_ok s = false ->
+    tstep s (LWFail o) (group_err EIO (set_spc SDone (set_tx r s)))
 | t_s_cancel : spc s = SSel -> cancelled s = true -> tstep s Tau (set_spc SDone s)
 | t_s_quit : spc s = SQuit -> tstep s Tau (set_spc SDone (set_cancelled true s))
 (* pingLoop *)
 | t_p_cancel : ppc s = PSel -> cancelled s = true -> tstep s Tau (set_ppc PDone s)
 (* Close() *)
 | t_close_do : close_st s = KCalled -> tstep s Tau (set_close_st KDone (set_cancelled true s))
+(* network *)
+| t_net_reset : peer_closed s = true -> inbuf s <> [] -> tstep s Tau (set_inbuf (removelast (inbuf s)) s)
 (* environment *)
 | t_e_conn regs ping : cpc s = CIdle -> existsb o_quit regs = false -> S (length regs) <= budget s ->
     tstep s (LConnCall regs ping) (set_cpc (CStart regs ping) (spent (S (length regs)) s))
@@ -68,8 +69,9 @@ Inductive tstep (s : state) : label -> state -> Prop :=
     tstep s (LPeerSend ln) (if conn_set s && negb (sock_closed s) && negb (peer_closed s)
                             then set_inbuf (inbuf s ++ [ln]) (spent 1 s) else spent 1 s)
 | t_e_pclose : 1 <= budget s -> tstep s LPeerClose (set_peer_closed true (spent 1 s))
+| t_e_wfault : 1 <= budget s -> tstep s LWFault (set_wbroken true (spent 1 s))
 | t_e_precv o o' r : outbuf s = o' :: r -> out_eqb o o' = true -> tstep s (LPeerRecv o) (set_outbuf r s)
-| t_e_peof : sock_closed s = true -> outbuf s = [] -> peer_eof s = false -> tstep s LPeerEOF (set_peer_eof true s)
+| t_e_peof : sock_closed s = true -> peer_eof s = false -> tstep s LPeerEOF (set_outbuf [] (set_peer_eof true s))
 | t_e_tick0 : ppc s = PSel -> 1 <= budget s -> tstep s (LTick 0) (spent 1 s)
 | t_e_tick1 : ppc s = PSel -> 1 <= budget s -> tstep s (LTick 1) (set_tx (enq (tx s) ping_out) (spent 1 s))
 | t_e_tick2 : ppc s = PSel -> 1 <= budget s -> tstep s (LTick 2) (group_err ETimedOut (set_ppc PDone (spent 1 s))).
@@ -130,9 +132,9 @@ Lemma send_tstep s l s' : In (l, s') (step_send s) -> tstep s l s'.
 Proof.
   unfold step_send. destruct (spc s) eqn:E; intros H; try contradiction.
   - apply in_app_or in H. destruct H as [H|H].
-    + destruct (tx s) as [|o r] eqn:T; [contradiction|]. one H.
-      destruct (o_quit o) eqn:Q; [eapply t_s_quit_w; eauto|].
-      destruct (peer_closed s || sock_closed s) eqn:P; simpl; [eapply t_s_fail|eapply t_s_ok]; eauto.
+    + destruct (tx s) as [|o r] eqn:T; [contradiction|]. destruct H as [H|[]].
+      destruct (o_quit o) eqn:Q; [inj_pair H; eapply t_s_quit_w; eauto|].
+      destruct (write_ok s) eqn:P; inj_pair H; [eapply t_s_ok|eapply t_s_fail]; eauto.
     + destruct (cancelled s) eqn:C; [|contradiction]. one H. eapply t_s_cancel; eauto.
   - one H. eapply t_s_quit; eauto.
 Qed.
@@ -149,10 +151,17 @@ Proof.
   one H. eapply t_close_do; eauto.
 Qed.
 
+Lemma net_tstep s l s' : In (l, s') (step_net s) -> tstep s l s'.
+Proof.
+  unfold step_net. destruct (peer_closed s && negb (is_nil (inbuf s))) eqn:E; intros H; [|contradiction].
+  one H. apply andb_prop in E. destruct E as [E1 E2]. eapply t_net_reset; eauto.
+  destruct (inbuf s); [discriminate|discriminate].
+Qed.
+
 Lemma sys_tstep s l s' : In (l, s') (sys_next s) -> tstep s l s'.
 Proof.
   unfold sys_next, sys_next_gen. rewrite !in_app_iff.
-  intros [H|[H|[H|[H|[H|[H|H]]]]]].
+  intros [H|[H|[H|[H|[H|[H|[H|H]]]]]]]; [| | | | | | |apply net_tstep; exact H].
   - apply connect_tstep; exact H.
   - apply exec_tstep; exact H.
   - apply read_tstep; exact H.
@@ -194,9 +203,11 @@ Proof.
     apply spend_some in S1. destruct S1 as [Hb ->]. injection H as <-. eapply t_e_pclose; eauto.
   - destruct (outbuf s) as [|o' r] eqn:E; [discriminate|].
     destruct (out_eqb o o') eqn:Q; [|discriminate]. injection H as <-. eapply t_e_precv; eauto.
-  - destruct (sock_closed s && is_nil (outbuf s) && negb (peer_eof s)) eqn:E; [|discriminate].
-    injection H as <-. apply andb_prop in E. destruct E as [E E3]. apply andb_prop in E. destruct E as [E1 E2].
-    destruct (outbuf s) eqn:O; [|discriminate]. apply negb_true_iff in E3. eapply t_e_peof; eauto.
+  - destruct (sock_closed s && negb (peer_eof s)) eqn:E; [|discriminate].
+    injection H as <-. apply andb_prop in E. destruct E as [E1 E3].
+    apply negb_true_iff in E3. eapply t_e_peof; eauto.
+  - destruct (spend 1 s) as [s1|] eqn:S1; simpl in H; [|discriminate].
+    apply spend_some in S1. destruct S1 as [Hb ->]. injection H as <-. eapply t_e_wfault; eauto.
   - destruct (ppc s) eqn:E; [|discriminate].
     destruct (spend 1 s) as [s1|] eqn:S1; simpl in H; [|discriminate].
     apply spend_some in S1. destruct S1 as [Hb ->].
@@ -208,6 +219,18 @@ Qed.
 
 Lemma step_tstep s l s' : step s l s' -> tstep s l s'.
 Proof. intros [H|H]; [apply sys_tstep|apply env_tstep]; exact H. Qed.
+
+Lemma removelast_shorter {A} (l : list A) : l <> [] -> S (length (removelast l)) = length l.
+Proof.
+  induction l as [|a l IH]; intros H; [congruence|]. destruct l as [|b l]; [reflexivity|].
+  cbn [removelast length] in *. f_equal. apply IH. discriminate.
+Qed.
+
+Lemma in_removelast {A} (x : A) (l : list A) : In x (removelast l) -> In x l.
+Proof.
+  induction l as [|a l IH]; [intros []|]. destruct l as [|b l]; [intros []|].
+  intros [H|H]; [left; exact H|right; apply IH; exact H].
+Qed.
 
 (* ---- executions from init, trace of non-Tau labels accumulated left to right ---- *)
 Inductive exec (b : nat) : list label -> state -> Prop :=
